@@ -358,6 +358,19 @@ func (r *rewriter) rewriteGo(n *ast.GoStmt) ast.Stmt {
 	return &ast.BlockStmt{List: stmts}
 }
 
+// recvCaseFn picks the constructor of a receive case: a channel made by time.After right in the
+// case expression is unreachable once the select is over, so its timer can be dropped if not taken.
+func recvCaseFn(ch ast.Expr) string {
+	if c, ok := unparen(ch).(*ast.CallExpr); ok {
+		if sel, ok := c.Fun.(*ast.SelectorExpr); ok {
+			if id, ok := sel.X.(*ast.Ident); ok && id.Name == "time" && sel.Sel.Name == "After" {
+				return "RecvCaseEphemeral"
+			}
+		}
+	}
+	return "RecvCase"
+}
+
 func (r *rewriter) rewriteSelect(n *ast.SelectStmt) ast.Stmt {
 	var decls []ast.Stmt
 	var caseExprs []ast.Expr
@@ -379,10 +392,10 @@ func (r *rewriter) rewriteSelect(n *ast.SelectStmt) ast.Stmt {
 				Rhs: []ast.Expr{&ast.CallExpr{Fun: &ast.SelectorExpr{X: r.call("SendOp", s.Chan), Sel: ast.NewIdent("Case")}, Args: []ast.Expr{s.Value}}}})
 		case *ast.ExprStmt:
 			u := unparen(s.X).(*ast.UnaryExpr)
-			decls = append(decls, &ast.AssignStmt{Lhs: []ast.Expr{cv}, Tok: token.DEFINE, Rhs: []ast.Expr{r.call("RecvCase", u.X)}})
+			decls = append(decls, &ast.AssignStmt{Lhs: []ast.Expr{cv}, Tok: token.DEFINE, Rhs: []ast.Expr{r.call(recvCaseFn(u.X), u.X)}})
 		case *ast.AssignStmt:
 			u := unparen(s.Rhs[0]).(*ast.UnaryExpr)
-			decls = append(decls, &ast.AssignStmt{Lhs: []ast.Expr{cv}, Tok: token.DEFINE, Rhs: []ast.Expr{r.call("RecvCase", u.X)}})
+			decls = append(decls, &ast.AssignStmt{Lhs: []ast.Expr{cv}, Tok: token.DEFINE, Rhs: []ast.Expr{r.call(recvCaseFn(u.X), u.X)}})
 			rhs := []ast.Expr{&ast.SelectorExpr{X: cv, Sel: ast.NewIdent("V")}}
 			if len(s.Lhs) == 2 {
 				rhs = append(rhs, &ast.SelectorExpr{X: cv, Sel: ast.NewIdent("OK")})
